@@ -77,9 +77,11 @@ func (v *VMap) validate(prefix string, tv reflect.Value) *VMap {
 		return v
 	}
 
+	seen := make(map[string]struct{}, tv.Len())
 	mapIter := tv.MapRange()
 	for mapIter.Next() {
 		key := mapIter.Key().String()
+		seen[key] = struct{}{}
 		val := mapIter.Value()
 		validNames := v.ruleObj.Get(key)
 		if validNames == "" {
@@ -130,6 +132,7 @@ func (v *VMap) validate(prefix string, tv reflect.Value) *VMap {
 			fn(v.errBuf, validName, "", v.getKey(prefix, key), val)
 		}
 	}
+	requiredMissing(v.errBuf, v.ruleObj, seen, func(key string) string { return v.getKey(prefix, key) })
 	return v
 }
 
